@@ -224,6 +224,20 @@ class Module:
             self.consts[name] = (text, out)
             self.const_order.append(name)
             return out
+        if isinstance(node.value, (ast.Tuple, ast.List)) and node.value.elts and all(
+                isinstance(x, (ast.Tuple, ast.List)) and len(x.elts) == 2 for x in node.value.elts):
+            # a constant table of pairs `((a, b), …)`: kept symbolically, usable only as `for x, y in NAME:` (the same
+            # translation as `for x, y in {a: b, …}.items()`)
+            fn = Fn(self, None, {"name": name}, const=True)
+            items = []
+            for x in node.value.elts:
+                pa, pb = fn.expr(x.elts[0], {}), fn.expr(x.elts[1], {})
+                if fn.pre or any(q.t != INT or q.lo is None or q.lo != q.hi for q in (pa, pb)):
+                    raise TranslationError("%s: module table %r: only constant int pairs are in the subset" % (where, name))
+                items.append((pa.lo, pb.lo))
+            out = V("", "pairs", rec=items)
+            self.consts[name] = (None, out)
+            return out
         fn = Fn(self, None, {"name": name}, const=True)
         v = fn.expr(node.value, {})
         if fn.pre:
@@ -1418,8 +1432,20 @@ class Fn:
                     self.err(s, "loop variable %s is already bound" % nm)
             if pair[0] == pair[1]:
                 self.err(s, "loop target repeats a name")
+        elif isinstance(s.target, ast.Tuple) and len(s.target.elts) == 2 and all(isinstance(x, ast.Name) for x in s.target.elts) \
+                and isinstance(it, ast.Name) and it.id not in env and it.id not in self.locals \
+                and self.mod.constant(it.id, "%s:%d" % (self.mod.relpath, s.lineno)).t == "pairs":
+            # `for a, b in TABLE` over a module-level constant table of int pairs
+            pair = (s.target.elts[0].id, s.target.elts[1].id)
+            items = self.mod.constant(it.id, "").rec
+            for nm in pair:
+                if nm in env:
+                    self.err(s, "loop variable %s is already bound" % nm)
+            if pair[0] == pair[1]:
+                self.err(s, "loop target repeats a name")
+            self.notes.append("the module-level table %s is the constant list of pairs %s" % (it.id, items))
         elif not isinstance(s.target, ast.Name):
-            self.err(s, "loop target must be a single name (or `k, v` over the items of a constant dict)")
+            self.err(s, "loop target must be a single name (or `k, v` over the items of a constant dict / a constant table of pairs)")
         var = s.target.id if pair is None else self.tmp("kv")
         if var in env and var != "_":
             self.err(s, "loop variable %s is already bound (its value after the loop is not modelled)" % var)
